@@ -25,8 +25,8 @@ let () =
   register "cg_vtmf" (function [f; g; canon; p; q; gg; k; tab; out] ->
       (tok_verdict (check_group_vtmf is_prime (hash_of (table_of_tok tab)) fuel (z_of_hex f) (z_of_hex g) (bool_of_tok canon)
                       (z_of_hex p) (z_of_hex q) (z_of_hex gg) (z_of_hex k)), out) | _ -> failwith "arity");
-  register "cg_gens" (function [_name; f; g; derive; canon; p; q; k0; h; gs; tab; out] ->
-      (tok_verdict (check_group_gens is_prime (hash_of (table_of_tok tab)) fuel (z_of_hex f) (z_of_hex g) (bool_of_tok derive) (bool_of_tok canon)
+  register "cg_gens" (function [_name; f; g; sign; derive; canon; p; q; k0; h; gs; tab; out] ->
+      (tok_verdict (check_group_gens is_prime (hash_of (table_of_tok tab)) fuel (z_of_hex f) (z_of_hex g) (bool_of_tok sign) (bool_of_tok derive) (bool_of_tok canon)
                       (z_of_hex p) (z_of_hex q) (z_of_hex k0) (z_of_hex h) (zlist_of_tok gs)), out) | _ -> failwith "arity");
   register "cg_qr" (function [f; g; e; p; q; out] ->
       ((match qr_generator (z_of_hex e) (z_of_hex p) with
